@@ -2,18 +2,24 @@ from vf.runner import Entry
 import math
 PROPERTY = "C12"
 HARNESS = "C12.cpp"
-SOURCES = ["src/transform/SmartRotation3D.cpp"]
+SOURCES = ["src/transform/SmartRotation3D.cpp", "src/regression/leastsquares/LeastSquares.cpp"]
+NOINLINE = True
 CLAIM = ("SmartRotation3D: each entry of the reported dR/d(angle) matrices, and of dRTdAngles(T), equals the derivative - obtained by "
          "forward-mode automatic differentiation of the library's own computation of R (resp. R*T) - with respect to that angle, for all "
          "symbolic angles and vectors (exact-real semantics); counterexamples are replayed against central finite differences of the "
-         "library's own map on the IEEE build")
+         "library's own map on the IEEE build; LeastSquares::computeEstimateCovariance after a Cholesky solve with a diagonal preconditioner equals variance * A (J^T J)^-1 A and the stored inverse is the inverse normal matrix")
 BOUNDS = dict(quick="roll, yaw in [-pi, pi], |pitch| <= pi/2 - 0.05, |T_i| <= 1e3", thorough="same")
 ASSUMPTIONS = ["forward-mode AD rules of the engine (textbook rules for + - * / sqrt sin cos atan2 asin) are trusted",
                "native replay uses central differences with step 1e-6 and relative tolerance 1e-6"]
-OUTSIDE = ["covariance of the transformed 3D pose and the least-squares covariance (not yet encoded)"]
+OUTSIDE = ["covariance of the transformed 3D pose (not encoded: Jacobian of the Euler extraction through atan2/asin over 12 angle atoms)"]
 
 def entries(tier):
-    return [Entry("c12_rotation_derivatives", ad=("ax", "ay", "az"))]
+    from checks import C07
+    es = [Entry("c12_rotation_derivatives", ad=("ax", "ay", "az"))]
+    for n, m in ([(1, 2), (2, 3)] if tier == "quick" else [(1, 2), (2, 3), (3, 4)]):
+        es.append(Entry("c07_preconditioner", params=dict(n=n, m=m), setup=(C07.setup_real_ldlt if n <= 1 else C07.setup_contract),
+                        budget=dict(paths=400), note="covariance = variance * A (J^T J)^-1 A for a diagonal preconditioner A"))
+    return es
 
 def tv_vectors(tier):
     return [("c12_rotation_derivatives", {}, dict(ax=0.0, ay=0.0, az=0.0, tx=0.0, ty=0.0, tz=0.0))]
